@@ -395,4 +395,310 @@ theorem cbNorm_closeNormal (T : Table) (hT : TimerOk T) : ∀ (ls : List FLabel)
         exact cbNorm_closeNormal T hT ls (some k) f' hinv' (fun k' hk' => by cases hk'; exact hop') he'
           (by simp only [pendc, List.singleton_append, closeNormal, if_neg hne, hs'2]; exact h)
 
+/-! ### a normal, grouped, complete schedule without `Close()` is one of the enumeration -/
+
+open VaxisModel.Model.ParserRunSched
+
+/-- The script: the runes the read returns, in order. -/
+def runes : List FLabel → List Nat
+  | [] => []
+  | .readRet (.rune r) :: ls => r :: runes ls
+  | _ :: ls => runes ls
+
+/-- The main goroutine has read `eof` (or left the loop): it never reads again. -/
+def afterEof : MPc → Bool
+  | .readDone .eof | .stopped .eof | .locked .eof | .bumped .eof | .stepped true | .fin _ _ | .done => true
+  | _ => false
+
+theorem afterEof_step (T : Table) (f f' : FSys) (l : FLabel) (o : List Seq) (hs : FSys.step T f l = some (f', o))
+    (h : afterEof f.mpc = true) : afterEof f'.mpc = true ∧ isRead l = false := by
+  cases l with
+  | closeSig => simp only [FSys.step, Option.some.injEq, Prod.mk.injEq] at hs; rw [← hs.1]; exact ⟨h, rfl⟩
+  | readRet i =>
+    simp only [FSys.step] at hs
+    split at hs
+    · rename_i hpc; rw [hpc] at h; cases h
+    · cases hs
+  | expire =>
+    simp only [FSys.step] at hs
+    split at hs
+    · simp only [Option.some.injEq, Prod.mk.injEq] at hs; rw [← hs.1]; exact ⟨h, rfl⟩
+    · cases hs
+  | cb k => rw [cb_mpc f f' k o (by simpa [FSys.step] using hs)]; exact ⟨h, rfl⟩
+  | main =>
+    refine ⟨?_, rfl⟩
+    simp only [FSys.step] at hs
+    unfold mainStep at hs
+    cases hpc : f.mpc with
+    | atSelect => rw [hpc] at h; cases h
+    | inRead => rw [hpc] at h; cases h
+    | readDone i => rw [hpc] at hs h; cases hs; cases i <;> first | (cases h; done) | rfl
+    | stopped i =>
+      rw [hpc] at hs h; simp only at hs
+      split at hs
+      · cases hs; cases i <;> first | (cases h; done) | rfl
+      · cases hs
+    | locked i => rw [hpc] at hs h; cases hs; cases i <;> first | (cases h; done) | rfl
+    | bumped i => rw [hpc] at hs h; cases hs; cases i <;> first | (cases h; done) | rfl
+    | stepped b => rw [hpc] at hs h; cases hs; cases b <;> first | (cases h; done) | rfl
+    | fin st v =>
+      rw [hpc] at hs
+      cases st <;> simp only at hs <;>
+        first
+          | (cases hs; rfl)
+          | (split at hs <;> first | (cases hs; done) | (cases hs; rfl))
+    | done => rw [hpc] at hs; cases hs
+
+theorem no_reads_after_eof (T : Table) : ∀ (ls : List FLabel) (f : FSys), afterEof f.mpc = true →
+    (FSys.run T f ls).isSome = true → runes ls = []
+  | [], _, _, _ => rfl
+  | l :: ls, f, h, hr => by
+    obtain ⟨f', o, hs, hr'⟩ := isSome_cons T f l ls hr
+    obtain ⟨h1, h2⟩ := afterEof_step T f f' l o hs h
+    have ih := no_reads_after_eof T ls f' h1 hr'
+    cases l with
+    | readRet i => cases h2
+    | _ => simpa [runes] using ih
+
+theorem mcAfter_false (x : SLabel) : mcAfter false x = false := by cases x <;> rfl
+
+/-- In a finished state nothing but `Close()` is enabled. -/
+theorem finished_stuck (T : Table) (f : FSys) (h : finished f = true) (l : FLabel) (hl : l ≠ .closeSig) :
+    FSys.step T f l = none := by
+  simp only [finished, Bool.and_eq_true, decide_eq_true_eq, List.all_eq_true] at h
+  obtain ⟨⟨hd, hg⟩, ha⟩ := h
+  cases l with
+  | closeSig => exact absurd rfl hl
+  | readRet i => simp [FSys.step, hd]
+  | main => simp [FSys.step, mainStep, hd]
+  | expire =>
+    cases hx : f.armed with
+    | none => simp [FSys.step, hx]
+    | some g => rw [hx] at ha; cases ha
+  | cb k =>
+    simp only [FSys.step]
+    unfold cbStep
+    cases hk : f.cbs[k]? with
+    | none => rfl
+    | some c =>
+      obtain ⟨g, pc⟩ := c
+      have := hg (g, pc) (List.mem_of_getElem? hk)
+      simp only at this
+      rw [this]
+
+theorem arming_stepped (T : Table) (f f' : FSys) (l : FLabel) (o : List Seq) (h : isArming T f l = true)
+    (hs : FSys.step T f l = some (f', o)) : ∃ b, f'.mpc = .stepped b := by
+  cases l with
+  | main =>
+    simp only [isArming] at h
+    cases hpc : f.mpc with
+    | bumped i =>
+      simp only [FSys.step, mainStep, hpc, Option.some.injEq, Prod.mk.injEq] at hs
+      exact ⟨_, by rw [← hs.1]⟩
+    | _ => rw [hpc] at h; cases h
+  | _ => cases h
+
+theorem runes_nonread (l : FLabel) (ls : List FLabel) (h : isRead l = false) : runes (l :: ls) = runes ls := by
+  cases l with
+  | readRet i => cases h
+  | _ => rfl
+
+/-- A single-statement label that the schedule takes is one of `enabled`. -/
+theorem mem_single (T : Table) (f f' : FSys) (ins : List Nat) (l : FLabel) (o : List Seq) (hnr : isRead l = false)
+    (hlc : l ≠ .closeSig) (hs : FSys.step T f l = some (f', o)) (hx : (sstep T f (sl l)).isSome = true)
+    (hexp : l = .expire → ∃ b, f.mpc = .stepped b) : sl l ∈ enabled T f ins false := by
+  cases l with
+  | readRet i => cases hnr
+  | closeSig => exact absurd rfl hlc
+  | main =>
+    have hpc : f.mpc ≠ .inRead := by
+      intro h; simp [FSys.step, mainStep, h] at hs
+    simp only [sl] at hx ⊢
+    simp [enabled, hpc, hx]
+  | expire =>
+    obtain ⟨b, hb⟩ := hexp rfl
+    have ha : f.armed.isSome = true := by
+      cases h : f.armed with
+      | none => simp [FSys.step, h] at hs
+      | some g => rfl
+    simp [enabled, sl, hb, ha]
+  | cb k =>
+    have hk : k < f.cbs.length := by
+      cases h : f.cbs[k]? with
+      | none => simp [FSys.step, cbStep, h] at hs
+      | some c => exact lt_of_getElem? h
+    simp only [sl] at hx ⊢
+    simp only [enabled, List.mem_append, List.mem_filterMap, List.mem_range]
+    exact Or.inl (Or.inr ⟨k, hk, by simp [hx]⟩)
+
+theorem mem_read (T : Table) (f : FSys) (ins : List Nat) (i : Inp) (hpc : f.mpc = .inRead)
+    (hi : i = (match ins with | r :: _ => Inp.rune r | [] => Inp.eof)) : SLabel.read i ∈ enabled T f ins false := by
+  subst hi
+  cases ins <;> simp [enabled, hpc]
+
+theorem mem_cb (T : Table) (f : FSys) (ins : List Nat) (k : Nat) (hk : k < f.cbs.length)
+    (hx : (sstep T f (.cb k)).isSome = true) : SLabel.cb k ∈ enabled T f ins false := by
+  simp only [enabled, List.mem_append, List.mem_filterMap, List.mem_range]
+  exact Or.inl (Or.inr ⟨k, hk, by simp [hx]⟩)
+
+/-- **A complete schedule of single statements without `Close()` that is expiry-normal and grouped is
+    (the expansion of) a schedule of the enumeration**: `toS` of it is `Reduced` for the script of its
+    rune reads. -/
+theorem reduced_core (T : Table) : ∀ (ls : List FLabel) (f : FSys) (fl : Bool) (r : FSys × List Seq),
+    FSys.run T f ls = some r → finished r.1 = true → (∀ l ∈ ls, l ≠ .closeSig) → readAdj ls = true →
+    cbAdj T f ls = true → expNormal T fl f ls = true → (fl = true → ∃ b, f.mpc = .stepped b) →
+    (∀ i, f.mpc ≠ .readDone i) → Reduced T f (runes ls) false (toS T false f ls)
+  | [], f, _, r, hr, hfin, _, _, _, _, _, _ => by
+    simp only [FSys.run, Option.some.injEq] at hr
+    rw [← hr] at hfin
+    exact Reduced.done f _ _ hfin
+  | [l], f, fl, r, hr, hfin, hnc, hra, hca, hex, hfl, hnd => by
+    have hrs : (FSys.run T f [l]).isSome = true := by rw [hr]; rfl
+    obtain ⟨f', o, hs, _⟩ := isSome_cons T f l [] hrs
+    have hlc := hnc l (List.mem_cons_self ..)
+    have hnr : isRead l = false := by
+      cases h : isRead l with
+      | false => rfl
+      | true => simp [readAdj, h, headIsMain] at hra
+    have hno : openK f l = none := by
+      cases h : openK f l with
+      | none => rfl
+      | some k => simp [cbAdj, hs, h] at hca
+    have hx := sstep_single T f l hnr hno (by rw [hs]; rfl) hnd
+    have hrun : FSys.run T f [l] = some (f', o ++ []) := by simp only [FSys.run, hs]
+    rw [hrun] at hr
+    simp only [Option.some.injEq] at hr
+    rw [← hr] at hfin
+    have hnf : finished f = false := by
+      cases h : finished f with
+      | false => rfl
+      | true => rw [finished_stuck T f h l hlc] at hs; cases hs
+    simp only [expNormal, hs, Bool.and_eq_true] at hex
+    have ht : toS T false f [l] = [sl l] := by simp [toS, hs]
+    rw [ht, runes_nonread l [] hnr]
+    refine Reduced.step f _ false (sl l) f' (o ++ []) [] hnf
+      (mem_single T f f' _ l o hnr hlc hs (by rw [hx, hrun]; rfl) (fun he => hfl (by rw [if_pos he] at hex; exact hex.1)))
+      (by rw [hx, hrun]) ?_
+    rw [mcAfter_false]
+    exact Reduced.done f' _ _ hfin
+  | l :: l2 :: rest, f, fl, r, hr, hfin, hnc, hra, hca, hex, hfl, hnd => by
+    have hrs : (FSys.run T f (l :: l2 :: rest)).isSome = true := by rw [hr]; rfl
+    obtain ⟨f1, o1, hs1, hr1⟩ := isSome_cons T f l _ hrs
+    obtain ⟨f2, o2, hs2, hr2⟩ := isSome_cons T f1 l2 _ hr1
+    have hrun2 : FSys.run T f [l, l2] = some (f2, o1 ++ (o2 ++ [])) := by simp only [FSys.run, hs1, hs2]
+    have hrun1 : FSys.run T f [l] = some (f1, o1 ++ []) := by simp only [FSys.run, hs1]
+    have hlc := hnc l (List.mem_cons_self ..)
+    have hnf : finished f = false := by
+      cases h : finished f with
+      | false => rfl
+      | true => rw [finished_stuck T f h l hlc] at hs1; cases hs1
+    simp only [readAdj, Bool.and_eq_true] at hra
+    simp only [cbAdj, hs1, hs2, Bool.and_eq_true] at hca
+    simp only [expNormal, hs1, hs2, Bool.and_eq_true] at hex
+    by_cases hp : pairs f l = true
+    · have ht : toS T false f (l :: l2 :: rest) = sl l :: toS T false f2 rest := by simp only [toS, hs1, hs2, hp]
+      rw [ht]
+      -- the rest of the run, from `f2`
+      obtain ⟨r2, hrr2⟩ : ∃ r2, FSys.run T f2 rest = some r2 := by
+        cases h : FSys.run T f2 rest with
+        | none => rw [h] at hr2; cases hr2
+        | some x => exact ⟨x, rfl⟩
+      have hr' : r.1 = r2.1 := by
+        have e : FSys.run T f (l :: l2 :: rest) = FSys.run T f ([l, l2] ++ rest) := rfl
+        rw [e, VaxisModel.Props.C08Sched.run_append, hrun2] at hr
+        simp only [hrr2, Option.some.injEq] at hr
+        rw [← hr]
+      have hnc' : ∀ x ∈ rest, x ≠ .closeSig := fun x hx => hnc x (List.mem_cons_of_mem _ (List.mem_cons_of_mem _ hx))
+      cases hrd : isRead l with
+      | true =>
+        cases l with
+        | readRet i =>
+          rw [hrd] at hra
+          simp only [if_true] at hra
+          have hl2 : l2 = .main := by cases l2 <;> first | rfl | simp [headIsMain] at hra
+          subst hl2
+          have hpc : f.mpc = .inRead := by
+            simp only [FSys.step] at hs1
+            split at hs1
+            · assumption
+            · cases hs1
+          have hf1 : f1 = { f with mpc := .readDone i } := by
+            simp only [FSys.step, hpc, if_true, Option.some.injEq, Prod.mk.injEq] at hs1; exact hs1.1.symm
+          have hf2 : f2.mpc = .stopped i := by
+            rw [hf1] at hs2
+            simp only [FSys.step, mainStep, Option.some.injEq, Prod.mk.injEq] at hs2
+            rw [← hs2.1]
+          have hia : isArming T f1 .main = false := by rw [hf1]; rfl
+          rw [hia] at hex
+          have ih := reduced_core T rest f2 false r2 hrr2 (by rw [← hr']; exact hfin) hnc' hra.2.2 hca.2.2 hex.2.2
+            (fun h => by cases h) (fun j hj => by rw [hf2] at hj; cases hj)
+          have hx : sstep T f (.read i) = some (f2, o1 ++ (o2 ++ [])) := by rw [sstep_read, hrun2]
+          cases i with
+          | rune rr =>
+            refine Reduced.step f _ false (.read (.rune rr)) f2 _ _ hnf (mem_read T f _ _ hpc (by simp [runes])) hx ?_
+            rw [mcAfter_false]
+            simpa [insAfter, runes] using ih
+          | eof =>
+            have hre : runes rest = [] := no_reads_after_eof T rest f2 (by rw [hf2]; rfl) hr2
+            have hrl : runes (FLabel.readRet .eof :: .main :: rest) = [] := by simpa [runes] using hre
+            rw [hrl]
+            refine Reduced.step f _ false (.read .eof) f2 _ _ hnf (mem_read T f _ _ hpc rfl) hx ?_
+            rw [mcAfter_false]
+            simpa [insAfter, hre] using ih
+        | _ => cases hrd
+      | false =>
+        simp only [pairs, hrd, Bool.false_or] at hp
+        cases ho : openK f l with
+        | none => rw [ho] at hp; cases hp
+        | some k =>
+          obtain ⟨rfl, hop⟩ := openK_spec f l k ho
+          rw [ho] at hca
+          simp only [List.head?_cons, decide_eq_true_eq, Option.some.injEq] at hca
+          have hl2 : l2 = .cb k := hca.1
+          subst hl2
+          have hm1 : f1.mpc = f.mpc := cb_mpc f f1 k o1 (by simpa [FSys.step] using hs1)
+          have hm2 : f2.mpc = f1.mpc := cb_mpc f1 f2 k o2 (by simpa [FSys.step] using hs2)
+          have hia : isArming T f1 (.cb k) = false := rfl
+          rw [hia] at hex
+          have ih := reduced_core T rest f2 false r2 hrr2 (by rw [← hr']; exact hfin) hnc' hra.2.2 hca.2.2 hex.2.2
+            (fun h => by cases h) (fun j hj => by rw [hm2, hm1] at hj; exact hnd j hj)
+          have hx : sstep T f (.cb k) = some (f2, o1 ++ (o2 ++ [])) := by rw [sstep_cb_pair T f k hop, hrun2]
+          have hk : k < f.cbs.length := (opens_spec f k hop).elim fun g h => h.elim fun pc h => lt_of_getElem? h.1
+          refine Reduced.step f _ false (.cb k) f2 _ _ hnf (mem_cb T f _ k hk (by rw [hx]; rfl)) hx ?_
+          rw [mcAfter_false]
+          simpa [insAfter, runes] using ih
+    · have hp0 : pairs f l = false := by simpa using hp
+      have ht : toS T false f (l :: l2 :: rest) = sl l :: toS T false f1 (l2 :: rest) := by simp only [toS, hs1, hp0]
+      rw [ht]
+      simp only [pairs, Bool.or_eq_false_iff] at hp0
+      have hno : openK f l = none := by
+        cases h : openK f l with
+        | none => rfl
+        | some k => rw [h] at hp0; simp at hp0
+      obtain ⟨r1, hrr1⟩ : ∃ r1, FSys.run T f1 (l2 :: rest) = some r1 := by
+        cases h : FSys.run T f1 (l2 :: rest) with
+        | none => rw [h] at hr1; cases hr1
+        | some x => exact ⟨x, rfl⟩
+      have hr' : r.1 = r1.1 := by
+        rw [run_cons_some T f f1 l o1 _ hs1, hrr1] at hr
+        simp only [Option.map_some, Option.some.injEq] at hr
+        rw [← hr]
+      have hx := sstep_single T f l hp0.1 hno (by rw [hs1]; rfl) hnd
+      have ih := reduced_core T (l2 :: rest) f1 (isArming T f l) r1 hrr1 (by rw [← hr']; exact hfin)
+        (fun x hx => hnc x (List.mem_cons_of_mem _ hx)) (by simp only [readAdj, Bool.and_eq_true]; exact hra.2)
+        (by simp only [cbAdj, hs2, Bool.and_eq_true]; exact hca.2)
+        (by simp only [expNormal, hs2, Bool.and_eq_true]; exact hex.2)
+        (fun h => arming_stepped T f f1 l o1 h hs1) (not_readDone_step T f f1 l o1 hs1 hp0.1 hnd)
+      rw [runes_nonread l _ hp0.1]
+      refine Reduced.step f _ false (sl l) f1 (o1 ++ []) _ hnf
+        (mem_single T f f1 _ l o1 hp0.1 hlc hs1 (by rw [hx, hrun1]; rfl)
+          (fun he => hfl (by rw [if_pos he] at hex; exact hex.1)))
+        (by rw [hx, hrun1]) ?_
+      rw [mcAfter_false]
+      have hia : insAfter (runes (l2 :: rest)) (sl l) = runes (l2 :: rest) := by
+        cases l with
+        | readRet i => cases hp0.1
+        | _ => rfl
+      rw [hia]; exact ih
+
 end VaxisModel.Lemmas.ParserRunSchedEnum
